@@ -490,13 +490,30 @@ fn op() -> BoxedStrategy<Op> {
 }
 
 pub fn api_strategy(max_ops: usize) -> BoxedStrategy<ApiCase> {
-    (
+    let free = (
         proptest::collection::vec(api_text(), 1..4),
         proptest::collection::vec(op(), 1..max_ops),
         0u8..4,
     )
-        .prop_map(|(texts, ops, dialect)| ApiCase { texts, ops, dialect })
-        .boxed()
+        .prop_map(|(texts, ops, dialect)| ApiCase { texts, ops, dialect });
+    // the same text checked again after one of the rules that fire on it was switched
+    let relint = (
+        g::sel_str(&["He is taller then her.", "I could of gone there fore.", "Their is alot of work to to do.", "This is very very good, more then enough.", "As a matter of fact, at the end of the day it is what it is.", "Their is an apple, an problem, teh wrold and a  double space. I could of gone. the the cat"]),
+        proptest::collection::vec((any::<u16>(), any::<bool>(), any::<bool>()), 1..5),
+        any::<bool>(),
+        0u8..4,
+        proptest::collection::vec(op(), 0..3),
+    )
+        .prop_map(|(text, toggles, markdown, dialect, tail)| {
+            let mut ops = vec![Op::Lint { text: 0, markdown }];
+            for (which, on, md) in toggles {
+                ops.push(Op::ToggleFiring { text: 0, which, on });
+                ops.push(Op::Lint { text: 0, markdown: if md { markdown } else { !markdown } });
+            }
+            ops.extend(tail);
+            ApiCase { texts: vec![text], ops, dialect }
+        });
+    prop_oneof![4 => free, 1 => relint].boxed()
 }
 
 pub fn run(run: &mut Run) {
